@@ -534,6 +534,14 @@ def rp_problems(case: F.Case, tracks, keys: list[int] | None = None) -> list[str
             elif (n, k) in fresh_vals:
                 if not F.close(v, fresh_vals[(n, k)], 1e-9) and not (v is None and fresh_vals[(n, k)] is None):
                     out.append(f"shape:node {n} {case.keyname[k]} {v} != from-scratch {fresh_vals[(n, k)]}")
+                else:
+                    # second reference: the node's mask ALONE in an empty frame (a bulk computation on
+                    # the whole array may pick up neighbouring labels in both objects alike)
+                    px = tuple(int(t) * case.frame + int(o) for o in np.nonzero(mask.reshape(-1))[0])
+                    ref = F.ref_value(case, k, px, int(n))
+                    if not (isinstance(ref, tuple) and ref and ref[0] == "exc") and v is not None \
+                            and not F.close(v, ref, 1e-9):
+                        out.append(f"shape:node {n} {case.keyname[k]} {v} != value of its mask alone {ref}")
     return out
 
 
@@ -907,6 +915,16 @@ def run_session(prop: str, spec: dict, rng: random.Random, nops: int, res: Resul
                     fail(f"{kind}|unknown-key-not-refused", f"{op} gave {out}")
                 if bogus and observe_all(tracks) != before_all:
                     fail(f"{kind}|unknown-key-changed-state", f"{op}: " + obs_diff(before_all, observe_all(tracks)))
+                if kind == "enable" and accepted and op["recompute"]:
+                    # id features enabled with recomputation: ids = segments / components of the graph
+                    gq = tracks.graph
+                    if F.K_TID in op["keys"]:
+                        for p in partition_problems(gq, segments(gq), {n: gq.nodes[n].get("track_id") for n in gq.nodes}, "track id"):
+                            fail("enable|value-not-current|track-id-" + p.split(":")[0], f"after {op}: {p}")
+                    if F.K_LIN in op["keys"]:
+                        for p in partition_problems(gq, list(nx.weakly_connected_components(gq)),
+                                                    {n: gq.nodes[n].get("lineage_id") for n in gq.nodes}, "lineage id"):
+                            fail("enable|value-not-current|lineage-id-" + p.split(":")[0], f"after {op}: {p}")
                 if kind == "enable" and accepted and op["recompute"] and case.cfg == "seg":
                     ks = [k for k in op["keys"] if k in F.RP_KEYS]
                     for p in rp_problems(case, tracks, ks):
